@@ -208,7 +208,7 @@ func modelsC19(tier string) ([]*PktModel, []int) {
 	mt.StepCheck = Steps(CoreStepCheck, MtStep, ErrorAckStepCheck)
 	depth := []int{4, 4}
 	if tier == "thorough" {
-		depth = []int{6, 5}
+		depth = []int{7, 6}
 	}
 	// probes are expensive as real transactions: probe the states at even depths only in the quick tier
 	if tier != "thorough" {
